@@ -40,7 +40,7 @@ def plan(tier):
 
 
 def n_tables(tier):
-    return 90 if tier == "thorough" else 16
+    return 90 if tier == "thorough" else 14
 
 
 # ---- operation universe ----------------------------------------------------
